@@ -4,6 +4,7 @@
 #include <shark/ObjectiveFunctions/ErrorFunction.h>
 #include <shark/ObjectiveFunctions/Regularizer.h>
 #include <shark/ObjectiveFunctions/NegativeAUC.h>
+#include <shark/ObjectiveFunctions/NegativeLogLikelihood.h>
 #include <shark/ObjectiveFunctions/Loss/SquaredLoss.h>
 #include <shark/ObjectiveFunctions/Loss/AbsoluteLoss.h>
 #include <shark/ObjectiveFunctions/Loss/CrossEntropy.h>
@@ -323,6 +324,20 @@ static std::string handle(std::string const& line) {
 		bool first = true;
 		for (auto const& q : grad) for (auto const& x : q) for (std::size_t k = 0; k != x.size(); ++k) { if (!first) o << ","; first = false; o << hx(x(k)); }
 		if (first) o << "-";
+		return o.str();
+	}
+	if (kind == 'P') {   // P T nin | sizes | params | inputs : NegativeLogLikelihood of LinearModel(nin,1,offset) on unlabeled data
+		std::size_t T = std::stoul(s[0][1]), nin = std::stoul(s[0][2]);
+		auto sz = sizes(s[1]); DV params = nums(s[2]), in = nums(s[3]);
+		omp_set_num_threads((int)T);
+		LinearModel<> model(nin, 1, true);
+		RealVector p(params.size()); for (std::size_t i = 0; i != params.size(); ++i) p(i) = params[i];
+		if (p.size() != model.numberOfParameters()) throw std::runtime_error("parameter count");
+		UnlabeledData<RealVector> data = mkData(rows(in, in.size() / nin, nin), sz);
+		NegativeLogLikelihood nll(data, &model);
+		double v = nll.eval(p);
+		RealVector g; double dv = nll.evalDerivative(p, g);
+		o << "v=" << hx(v) << " dv=" << hx(dv) << " g=" << hv(g);
 		return o.str();
 	}
 	if (kind == 'A') {   // A invert T [dim] | sizes | labels | scores (n*dim numbers) : NegativeAUC on dim-column predictions (default 1)
